@@ -84,11 +84,13 @@ pub struct ExSocketAddr(std::net::SocketAddr);
 # Their results are ASSUMED to satisfy the clause that is proved for the local resolver.
 RESOLVE_STANDINS = """
 #[verifier::external_body]
-pub async fn resolve_forwarding(context: &mut Context<'_, ForwardingContextInner>, question: &Question) -> (r: Result<ResolvedRecord, ResolutionError>)
+pub(crate) async fn resolve_forwarding(context: &mut Context<'_, ForwardingContextInner>, question: &Question) -> (r: Result<ResolvedRecord, ResolutionError>)
+    requires old(context).r.forward_address == configured_forwarder(), // [C18:the_context_carries_the_configured_forwarder]
     ensures question.qtype != QueryType::Wildcard && r is Ok ==> chain_ok(resolved_rrs(r->Ok_0), question.name),
 { unimplemented!() }
 #[verifier::external_body]
-pub async fn resolve_recursive(context: &mut Context<'_, RecursiveContextInner>, question: &Question) -> (r: Result<ResolvedRecord, ResolutionError>)
+pub(crate) async fn resolve_recursive(context: &mut Context<'_, RecursiveContextInner>, question: &Question) -> (r: Result<ResolvedRecord, ResolutionError>)
+    requires old(context).r.upstream_dns_port == configured_port(), // [C18:the_context_carries_the_configured_port]
     ensures question.qtype != QueryType::Wildcard && r is Ok ==> chain_ok(resolved_rrs(r->Ok_0), question.name),
 { unimplemented!() }
 """
@@ -99,7 +101,7 @@ impl<'a, CT> Context<'a, CT> {
     spec fn wf(&self) -> bool { self.question_stack@.len() <= ctx_limit(self) }
 }
 // same request context except for the question stack / metrics
-spec fn same_env<CT>(a: &Context<'_, CT>, b: &Context<'_, CT>) -> bool { a.zones == b.zones && a.cache == b.cache && ctx_limit(a) == ctx_limit(b) }
+spec fn same_env<CT>(a: &Context<'_, CT>, b: &Context<'_, CT>) -> bool { a.zones == b.zones && a.cache == b.cache && ctx_limit(a) == ctx_limit(b) && a.r == b.r }
 pub open spec fn key_of(rr: ResourceRecord) -> (DomainName, RecordType) { (rr.name, spec_rtype_of(rr.rtype_with_data)) }
 // prioritising_merge: the first list, then the records of the second whose (name, type) does not occur in the first, in order
 pub open spec fn has_key(s: Seq<ResourceRecord>, k: (DomainName, RecordType)) -> bool { exists|i: int| 0 <= i < s.len() && key_of(#[trigger] s[i]) == k }
@@ -127,10 +129,10 @@ pub open spec fn resolved_rrs(r: ResolvedRecord) -> Seq<ResourceRecord> {
 """
 
 SPECS = {
-    "Context::new": {"props": ["C10"], "ret": "res", "contract": """    ensures res.wf(), res.question_stack@.len() == 0, res.zones == zones, res.cache == cache,"""},
+    "Context::new": {"props": ["C10"], "ret": "res", "contract": """    ensures res.wf(), res.question_stack@.len() == 0, res.zones == zones, res.cache == cache, res.r == r,"""},
     "Context::done": {"props": ["C10"], "contract": ""},
     "Context::metrics": {"props": ["C01"], "contract": """    ensures *r == old(self).metrics, final(self).question_stack == old(self).question_stack, final(self).zones == old(self).zones,
-        final(self).cache == old(self).cache, ctx_limit(final(self)) == ctx_limit(old(self)), final(self).metrics == *final(r),""", "mode": "assume"},
+        final(self).cache == old(self).cache, ctx_limit(final(self)) == ctx_limit(old(self)), final(self).metrics == *final(r), final(self).r == old(self).r,""", "mode": "assume"},
     "Context::at_recursion_limit": {"props": ["C10"], "mode": "assume", "contract": "    ensures r == (self.question_stack@.len() >= ctx_limit(self)),"},
     "Context::push_question": {"props": ["C10"], "mode": "assume", "contract": """    requires old(self).question_stack@.len() < ctx_limit(old(self)),
     ensures final(self).question_stack@ == old(self).question_stack@.push(*question), same_env(old(self), final(self)),"""},
@@ -173,8 +175,12 @@ proof { lemma_merged_step(old(priority)@, new@, idx); }"""},
 FORWARD_STANDINS = """
 // the forwarder: a recursive resolver elsewhere.  Its replies are used without validation (by design of forwarding mode); the chain
 // clause below is therefore proved RELATIVE to the assumption that the forwarder itself answers with the chain in order.
+// C18: the forwarder / upstream port this server process is configured with (dns_resolver::resolve puts them into the context)
+pub uninterp spec fn configured_forwarder() -> SocketAddr;
+pub uninterp spec fn configured_port() -> u16;
 #[verifier::external_body]
 pub fn query_nameserver(address: SocketAddr, question: Question, recursion_desired: bool) -> (r: Option<Message>)
+    requires address == configured_forwarder(), // [C18:forwarding_mode_asks_only_the_configured_forwarder]
     ensures r is Some && question.qtype != QueryType::Wildcard ==> chain_ok(r->Some_0.answers@, question.name),
 { unimplemented!() }
 #[verifier::external_body]
@@ -183,13 +189,13 @@ pub fn get_nxdomain_nodata_soa<'a>(question: &Question, response: &'a Message, c
 """
 
 FORWARD = {
-    "props": ["C10", "C01"],
+    "props": ["C10", "C01", "C18"],
     # R32: the synchronous reading of an async fn: `async` and `.await` removed (the future owns `&mut context` for its whole life,
     # everything it shares with other tasks is behind stand-ins without postconditions on shared state); #[async_recursion] dropped
     "header_rewrites": [("R32", r"\basync fn\b", "fn")],
     "rewrites": [("R30", r"\s*\.instrument\(tracing::\w+!\((?:[^()]|\([^()]*\))*\)\)", ""),
                  ("R32", r"\s*\.await\b", "")],
-    "contract": """    requires old(context).wf(),
+    "contract": """    requires old(context).wf(), old(context).r.forward_address == configured_forwarder(),
     ensures
         final(context).question_stack@ == old(context).question_stack@, same_env(old(context), final(context)), // [C10:question_stack_restored]
         old(context).question_stack@.len() >= ctx_limit(old(context)) ==> r == Err::<ResolvedRecord, ResolutionError>(ResolutionError::RecursionLimit), // [C10:recursion_limit_ends_the_chain]
@@ -211,11 +217,12 @@ FORWARD = {
 }
 
 RESOLVE = {
-    "props": ["C09", "C10"],
+    "props": ["C09", "C10", "C18"],
     "rewrites": [("R30", r"\s*\.instrument\(tracing::\w+!\((?:[^()]|\([^()]*\))*\)\)", ""),
                  ("R31", r"resolve_local\(&mut context, question\)\.map\(ResolvedRecord::from\)",
                   "match resolve_local(&mut context, question) { Ok(lsr__) => Ok(ResolvedRecord::from(lsr__)), Err(e__) => Err(e__) }")],
-    "contract": """    ensures
+    "contract": """    requires upstream_dns_port == configured_port(), forward_address is Some ==> forward_address->Some_0 == configured_forwarder(),
+    ensures
         // C09: an answer section holds only records for the question name or its CNAME chain; C10: in chain order
         question.qtype != QueryType::Wildcard && r.1 is Ok ==> chain_ok(resolved_rrs(r.1->Ok_0), question.name), // [C09,C10:answer_holds_only_the_question_name_and_its_alias_chain]""",
     "entry": BU + " broadcast use group_chain;",
